@@ -172,18 +172,18 @@ theorem nwu_suffix_span (c : Cfg) (src : Str) (pm sm : List MR) (nonUnit : List 
   rw [hpu] at e2
   simp only [suffixER, Nat.sub_self] at e2
   refine ⟨?_, ?_, ?_⟩
-  · rcases e2 with ⟨_, _, er, _, _⟩ | ⟨h0, _⟩ | ⟨er, _⟩
+  · rcases e2 with ⟨_, _, er, _⟩ | ⟨h0, _⟩ | ⟨er, _⟩
     · exact er
     · exact absurd h0 hL
     · exfalso
-      unfold step at er
+      unfold step stepSticky at er
       simp only [hpu, hL, ne_eq, not_false_eq_true, if_true, suffixER, Nat.sub_self, hnu] at er
       simp at er
-  · rcases e2 with ⟨_, _, _, ef, _⟩ | ⟨h0, _⟩ | ⟨_, ef⟩
+  · rcases e2 with ⟨_, _, _, ef⟩ | ⟨h0, _⟩ | ⟨_, ef⟩
     · exact ef
     · exact absurd h0 hL
     · exfalso
-      unfold step at ef
+      unfold step stepSticky at ef
       simp only [hpu, hL, ne_eq, not_false_eq_true, if_true, suffixER, Nat.sub_self, hnu] at ef
       simp at ef
   · intro hsm hn
@@ -194,8 +194,9 @@ theorem nwu_suffix_span (c : Cfg) (src : Str) (pm sm : List MR) (nonUnit : List 
 position), `m` is a non-empty prefix match that ends at or before the number and whose text is the stripped source between
 its start and the number; the unit string kept is the source from `m.start` to the number, the offset is `n.start - m.start`.
 If the suffix search also succeeds, the one new result starts at `m.start`, its text is prefix unit ++ suffix slice and the
-relative number start handed to the parser is the offset; if it does not (and no earlier number had both), the one new
-result is `unit ++ number` starting at `m.start`, relative number start = offset, flagged "unit is prefix". -/
+relative number start handed to the parser is the offset; if it does not, the one new result is `unit ++ number` starting
+at `m.start`, relative number start = offset, flagged "unit is prefix" — whatever happened to the numbers before
+(`prefix_matched` is reset for every number since fix f41005087; before it this needed "no earlier number had both"). -/
 theorem nwu_prefix_span (c : Cfg) (src : Str) (pm sm : List MR) (nonUnit : List (Nat × Nat)) (st : St) (n : Num) (m : MR)
     (hgate : min c.maxPrefixLen n.start ≠ 0) (hb : bestPrefix c.sp src n.start pm = some m)
     (hfirst : mget st.mapping n.start = none) :
@@ -208,7 +209,7 @@ theorem nwu_prefix_span (c : Cfg) (src : Str) (pm sm : List MR) (nonUnit : List 
           slice src m.start n.start ++ slice src n.start (n.start + n.len + L),
           some ⟨n.start - m.start, n.len, n.text⟩⟩] ∧
       (step c src pm sm nonUnit st n).flags = st.flags ++ [false]) ∧
-    (maxSuffix c src (n.start + n.len) sm = 0 → st.prefixMatched = false →
+    (maxSuffix c src (n.start + n.len) sm = 0 →
       (step c src pm sm nonUnit st n).result = st.result ++
         [⟨m.start, n.len + (n.start - m.start), slice src m.start n.start ++ n.text,
           some ⟨n.start - m.start, n.len, n.text⟩⟩] ∧
@@ -225,25 +226,25 @@ theorem nwu_prefix_span (c : Cfg) (src : Str) (pm sm : List MR) (nonUnit : List 
   · intro L hL hL0 hnu
     obtain ⟨_, e2⟩ := step_cases c src pm sm nonUnit st n _ _ L rfl hmp hL
     simp only [suffixER, e3] at e2
-    rcases e2 with ⟨_, _, er, ef, _⟩ | ⟨h0, _⟩ | ⟨er, ef⟩
+    rcases e2 with ⟨_, _, er, ef⟩ | ⟨h0, _⟩ | ⟨er, ef⟩
     · exact ⟨er, ef⟩
     · exact absurd h0 hL0
     · exfalso
-      unfold step at ef
+      unfold step stepSticky at ef
       simp only [hmp, hL, hL0, ne_eq, not_false_eq_true, if_true, suffixER, e3, hnu] at ef
       simp at ef
-  · intro hL hpm
+  · intro hL
     obtain ⟨_, e2⟩ := step_cases c src pm sm nonUnit st n _ _ 0 rfl hmp hL
     simp only [prefixOnlyER] at e2
-    rcases e2 with ⟨h0, _⟩ | ⟨_, _, p, hp, er, ef, _⟩ | ⟨er, ef⟩
+    rcases e2 with ⟨h0, _⟩ | ⟨_, p, hp, er, ef⟩ | ⟨er, ef⟩
     · exact absurd rfl h0
     · simp only [Option.some.injEq] at hp
       subst hp
       simp only [e3] at er
       exact ⟨er, ef⟩
     · exfalso
-      unfold step at ef
-      simp only [hmp, hL, ne_eq, not_true_eq_false, if_false, hpm, prefixOnlyER] at ef
+      unfold step stepSticky at ef
+      simp only [hmp, hL, ne_eq, not_true_eq_false, if_false, prefixOnlyER] at ef
       simp at ef
 
 /-- C05(h) / C01 **every result's text is the slice it claims** (`nwu_result_text_is_slice`): for well-formed inputs
@@ -440,17 +441,32 @@ example : let st := coreLoop ⟨fun ch => ch == 32, [], 3, true, false⟩ [36, 3
 /-- `5 (kg)`: the bracket rule takes the closing bracket in. -/
 example : maxSuffix ⟨fun ch => ch == 32, [], 0, false, false⟩ [53, 32, 40, 107, 103, 41] 1 [⟨3, 2, [107, 103]⟩] = 5 := by decide
 
-/- Natural statement "a number with a prefix unit and no suffix unit yields a prefix result" is FALSE of the code:
-   `prefix_matched` is set by the first number that has both a prefix and a suffix unit and is never reset. -/
+/-- C05(g′) **a prefix unit alone is enough** (`nwu_prefix_only_result`): a number with an admissible prefix match (the
+search is on, `best_match = m`, first number at that position) and no suffix result (`max_len = 0`) yields exactly one
+new result, `unit ++ number` from `m.start`, with the number at relative position `offset`, flagged prefix — for ANY state
+the earlier numbers left behind. (The code before fix f41005087 violated this: regression theorem below.) -/
+theorem nwu_prefix_only_result (c : Cfg) (src : Str) (pm sm : List MR) (nonUnit : List (Nat × Nat)) (st : St) (n : Num) (m : MR)
+    (hgate : min c.maxPrefixLen n.start ≠ 0) (hb : bestPrefix c.sp src n.start pm = some m)
+    (hfirst : mget st.mapping n.start = none) (hL : maxSuffix c src (n.start + n.len) sm = 0) :
+    (step c src pm sm nonUnit st n).result = st.result ++
+        [⟨m.start, n.len + (n.start - m.start), slice src m.start n.start ++ n.text,
+          some ⟨n.start - m.start, n.len, n.text⟩⟩] ∧
+      (step c src pm sm nonUnit st n).flags = st.flags ++ [true] :=
+  (nwu_prefix_span c src pm sm nonUnit st n m hgate hb hfirst).2.2.2 hL
 
-/-- … it holds while no earlier number had both (`nwu_prefix_span`, hypothesis `st.prefixMatched = false`); witness of
-the failure: `$5 u $7` with prefix matches `$`@0, `$`@5 and suffix match `u`@3 — the loop returns `$5 u` only, `$7` is
-dropped (observed on the real recogniser: `$5 usd and $7` → one entity). -/
+/-- `$5 u $7` (prefix matches `$`@0 and `$`@5, suffix match `u`@3): both amounts come out — `$5 u` and `$7`. -/
+example : (coreLoop ⟨fun ch => ch == 32, [], 3, true, false⟩ [36, 53, 32, 117, 32, 36, 55]
+      [⟨0, 1, [36]⟩, ⟨5, 1, [36]⟩] [⟨3, 1, [117]⟩] [] [⟨1, 1, [53]⟩, ⟨6, 1, [55]⟩]).result =
+      [⟨0, 4, [36, 53, 32, 117], some ⟨1, 1, [53]⟩⟩, ⟨5, 2, [36, 55], some ⟨1, 1, [55]⟩⟩] := by decide
+
+/-- **Regression theorem** for the variant before fix f41005087 (`coreLoopSticky`: `prefix_matched` set by the first
+number that has both a prefix and a suffix unit and never reset): on `$5 u $7` it returns `$5 u` only, `$7` is dropped
+(observed then on the real recogniser: `$5 usd and $7` → one entity); without the suffix match both variants agree. -/
 theorem nwu_prefix_only_suppressed_witness :
-    (coreLoop ⟨fun ch => ch == 32, [], 3, true, false⟩ [36, 53, 32, 117, 32, 36, 55]
+    (coreLoopSticky ⟨fun ch => ch == 32, [], 3, true, false⟩ [36, 53, 32, 117, 32, 36, 55]
       [⟨0, 1, [36]⟩, ⟨5, 1, [36]⟩] [⟨3, 1, [117]⟩] [] [⟨1, 1, [53]⟩, ⟨6, 1, [55]⟩]).result =
       [⟨0, 4, [36, 53, 32, 117], some ⟨1, 1, [53]⟩⟩] ∧
-    (coreLoop ⟨fun ch => ch == 32, [], 3, true, false⟩ [36, 53, 32, 117, 32, 36, 55]
+    (coreLoopSticky ⟨fun ch => ch == 32, [], 3, true, false⟩ [36, 53, 32, 117, 32, 36, 55]
       [⟨0, 1, [36]⟩, ⟨5, 1, [36]⟩] [] [] [⟨1, 1, [53]⟩, ⟨6, 1, [55]⟩]).result =
       [⟨0, 2, [36, 53], some ⟨1, 1, [53]⟩⟩, ⟨5, 2, [36, 55], some ⟨1, 1, [55]⟩⟩] := by decide
 
